@@ -139,6 +139,19 @@ def run_laws(case, r):
                         r.check(sw.exc is None and abs(sw.distance - w * d) <= 1e-8 * max(1.0, abs(w * d)), f"C05/scaling-weight/{method}", "a constant cell weight w scales the distance by w", w=w, d=d, d_weighted=None if sw.exc else sw.distance, cfg=tag)
                     else:
                         r.check(sw.exc is None and sw.distance >= w * fm * (1 - 1e-9) - 1e-12, f"C05/scaling-weight/{method}", "with a constant cell weight w the distance is at least w times the first-moment bound", w=w, d_weighted=None if sw.exc else sw.distance, cfg=tag)
+            # homogeneity when the iteration is ended by finite RELATIVE tolerances (the stopping test
+            # compares with the first residual / increment of THIS run): the scaled problem stops at
+            # the scaled iterate, whatever was solved earlier in the process
+            if len(mode_list) > 1 and (l1, mob) == modes[0]:
+                ot = dict(o, num_iter=60, tol_residual=1e-6, tol_increment=1e-6)
+                dt0 = dist(method, shape, vs, a, b, ot)
+                for c in (2.0**9, 2.0**-9):
+                    oc = dict(ot)
+                    if c04.mname(method) == "bregman":
+                        oc["L"] = c * ot.get("L", 1.0)
+                    sc = dist(method, shape, vs, c * a, c * b, oc)
+                    okc = dt0.exc is None and sc.exc is None and abs(sc.distance - c * dt0.distance) <= 1e-8 * abs(c * dt0.distance)
+                    r.check(okc, f"C05/scaling-mass/{method}/finite-tolerances", "with finite relative tolerances d(c a, c b) = c d(a, b) (iteration counts are recorded only: a run that stagnates at rounding level may stop earlier or later)", c=c, d=None if dt0.exc else dt0.distance, d_scaled_over_c=None if sc.exc else sc.distance / c, iterations=None if dt0.exc else len(dt0.info["convergence_history"]["distance"]), iterations_scaled=None if sc.exc else len(sc.info["convergence_history"]["distance"]), cfg=tag)
             # homogeneity also for very small masses, in every L1 / mobility mode: regularisation
             # floors are meant to act at rounding level, not at the scale of small data
             if len(mode_list) > 1:
